@@ -34,4 +34,4 @@ def c10_tasks(ctx):
 
 
 def dump_tasks(ctx):
-    return []
+    return [Task("(*memory.%s).DumpRAM" % k, "(*memory.%s).DumpRAM" % k) for k in ("none", "mbc1", "mbc2", "mbc3", "mbc5")]
